@@ -20,7 +20,7 @@ ID = "C05"
 RULE = ("domains: typed (3-type tree, constant, 5 predicates, 4 functions) and untyped variant; valid problems: object table "
         "in 3-5 groupings/orders (one-by-one, reversed, tab/newline layout, grouped, trailing untyped, all untyped, empty), "
         "every subset of <= 3 (quick) / <= 4 (thorough) ground atoms over objects+constant (repeated arguments, zero "
-        "arity) with a rotating fluent menu, every ground fluent x 8 numeral forms (integer, negative, decimal, exponent), "
+        "arity) with a rotating fluent menu, every ground fluent x 16 numeral forms (integer, negative, decimal, exponent, tiny, leading zeros, -0, -0.0, upper-case E, trailing zero), "
         "every subset of <= 2 goal atoms with 0-1 of 4 numeric goals; corruptions: for 2 base problems every single "
         "replacement of an argument by an object of a non-conforming type / supertype / undeclared object, arity -1/+1, "
         "undeclared predicate/function, in facts, fluents, goal atoms and numeric-goal fluents, wrong :domain, undeclared "
